@@ -53,6 +53,10 @@ func ValidateMigrationConfig(cfg *configpb.MigrationConfig) error {
 		return errors.New("log ID must be positive")
 	case cfg.BatchSize <= 0:
 		return errors.New("batch size must be positive")
+	case cfg.NumFetchers < 0:
+		return errors.New("number of fetchers must not be negative")
+	case cfg.NumSubmitters < 0:
+		return errors.New("number of submitters must not be negative")
 	}
 	switch idFunc := cfg.IdentityFunction; idFunc {
 	case configpb.IdentityFunction_SHA256_CERT_DATA:
